@@ -30,6 +30,33 @@ BOUNDS = {
                  'element_values': 'all 2^32', 'faults_per_operation': '<= 2', 'outside': 'larger capacities/counts, N > 3, fancy pointers'},
 }
 
+
+# ---------------------------------------------------------------- shared two-container / range job sets (cheap int jobs + a few instrumented ones)
+def two_basic(tier, elem='int', fmask=0, afls=((0, 1), (0, 0)), ops=None, witness=None):
+    from .jobs import two_job, OPS2_ALL
+    js = []
+    cs = [(2, 2, 2, 2), (2, 2, 2, 4), (2, 2, 4, 2), (2, 2, 4, 4), (0, 0, 2, 2), (2, 3, 2, 5), (3, 2, 3, 3), (3, 2, 3, 4), (2, 0, 2, 1), (0, 2, 1, 2)] if tier == 'quick' else \
+         [(2, 2, 2, 2), (2, 2, 2, 4), (2, 2, 4, 2), (2, 2, 4, 4), (0, 0, 0, 2), (0, 0, 2, 2), (0, 0, 2, 0), (2, 3, 2, 3), (2, 3, 2, 5), (3, 2, 3, 2), (3, 2, 3, 3), (3, 2, 3, 4), (3, 2, 5, 4), (0, 2, 0, 2), (0, 2, 1, 2), (0, 2, 0, 4), (2, 0, 2, 0), (2, 0, 2, 1), (2, 0, 2, 3), (2, 0, 4, 1), (1, 3, 1, 2)]
+    for op in (ops or OPS2_ALL):
+        for (afl, ideq) in afls:
+            for (na, nb, ca, cb) in cs:
+                js.append(two_job(op, elem, na, nb, ca, cb, afl=afl, ideq=ideq, fmask=fmask, witness=witness))
+    return [j for j in js if j is not None]
+
+def rng_basic(tier, elem='int'):
+    from .jobs import rng_job
+    js = []
+    for op in ['ctor_range', 'assign_range', 'insert_range', 'append_range']:
+        for (n, cap) in [(2, 2), (2, 4), (0, 0)]:
+            if op == 'ctor_range' and cap != n: continue
+            for itk in (1, 3): js.append(rng_job(op, elem, n, cap, itk=itk))
+            if elem == 'int' or op == 'ctor_range': js.append(rng_job(op, elem, n, cap, itk=0, lenfix=2))
+            else:
+                for sz in sorted(set([0, max(cap - 1, 0), cap])): js.append(rng_job(op, elem, n, cap, itk=0, lenfix=2, sizefix=sz))   # instrumented type + single pass: size pinned too
+    for op in ['ctor_count', 'ctor_count_val', 'ctor_gen', 'ctor_il']:
+        for n in (0, 2): js.append(rng_job(op, elem, n, n))
+    return [j for j in js if j is not None]
+
 REG = {}
 NOT_APPLICABLE = {
     'C20': 'The subject is a Python script run by GDB\'s embedded interpreter against DWARF of a live process and a natvis XML interpreted by Visual Studio; neither engine can be encoded for a solver, '
@@ -55,6 +82,7 @@ def c01_jobs(tier):
             for el in ['TrM', 'TrC', 'TrX']:
                 if elem_supports(el, op):
                     for (n, cap) in [(2, 2), (2, 4)]: js.append(ops_job(op, el, n, cap))
+    js += two_basic(tier) + rng_basic(tier)
     # element type bool from byte-sized integers (bulk-copy candidates) and ranges whose reference type is constructible but not assignable to value_type
     from .jobs import conv_job, rng_job
     for (s_, d_) in [('unsigned char', 'bool'), ('char', 'bool')]:
@@ -69,6 +97,7 @@ REG['C01'] = Spec('C01', c01_jobs, tags=['C01', 'C13'], memsafe=True, compile_fa
     'Because the post-state again satisfies the invariant the per-operation result extends to call histories by induction (up to the capacity bound).')
 
 def _nn(js): return [j for j in js if j is not None]
+K_ITER_ = J.K_DEREF | J.K_INC | J.K_CMP
 FAULT_W = ['normal return', 'exceptional exit (injected fault)']
 
 # ---------------------------------------------------------------- C02: storage invariants on every exit
@@ -88,6 +117,8 @@ def c02_jobs(tier):
                 js.append(ops_job(op, 'Tr', n, cap, fmask=J.K_ALL))
             for (n, cap) in [(2, 2), (2, 4)]:
                 if elem_supports('TrX', op): js.append(ops_job(op, 'TrX', n, cap, fmask=J.K_ALL))
+    js += two_basic(tier) + rng_basic(tier)
+    js += two_basic(tier, 'TrX', fmask=J.K_ALL, afls=((0, 0),), ops=['copy_assign', 'move_assign', 'assign_move', 'append_copy'])[:16] if tier == 'quick' else two_basic(tier, 'TrX', fmask=J.K_ALL)
     return _nn(js)
 REG['C02'] = Spec('C02', c02_jobs, explanation=
     'The representation invariant INV(v) (size<=capacity<=max(max_size,N), capacity>=N, inlined() iff capacity()==N iff data() inside the object / null for N==0, '
@@ -114,6 +145,8 @@ def c03_jobs(tier):
                 if op in ('at', 'access') or not elem_supports(el, op): continue
                 for (n, cap) in (cells(tier) if el == 'Tr' else [(0, 2), (2, 2), (2, 4)]):
                     js.append(ops_job(op, el, n, cap, fmask=J.K_ALL, extra_defs={'VF_NFAULTS': 2 if op.startswith('insert') else 1}))
+    js += [j for j in two_basic(tier, 'Tr', afls=((0, 1), (0, 0))) if tier != 'quick' or j.defs['VF_OP'] in ('OP_copy_ctor', 'OP_move_ctor', 'OP_copy_assign', 'OP_move_assign', 'OP_assign_move', 'OP_append_copy') and (j.defs['VF_CAPA'], j.defs['VF_CAPB']) in ((2, 4), (4, 4), (3, 3), (2, 5))]
+    js += rng_basic(tier, 'Tr')
     return _nn(js)
 REG['C03'] = Spec('C03', c03_jobs, memsafe=True, explanation=
     'Instrumented element types carry an in-object shadow state (RAW/LIVE/MOVED/DEAD) owned by the C side. Every constructor/assignment/destructor hook asserts '
@@ -137,6 +170,8 @@ def c04_jobs(tier):
             for (n, cap) in cells(tier):
                 js.append(ops_job(op, 'int', n, cap, maxcnt=3))
                 js.append(ops_job(op, 'Tr', n, cap, fmask=J.K_ALL))
+    from .jobs import A_POCCA, A_POCMA, A_POCS, A_IAE
+    js += two_basic(tier, afls=((0, 1), (0, 0), (A_POCS, 0), (A_POCMA, 0), (A_POCCA, 0), (A_IAE, 0))) + rng_basic(tier)
     return _nn(js)
 REG['C04'] = Spec('C04', c04_jobs, explanation=
     'Allocator ledger: every deallocate must find its live block with the same element count and an equal allocator id (also cbmc double-free / freed-object checks); on every exit '
@@ -176,6 +211,12 @@ def c06_jobs(tier):
                 if not elem_supports(el, op): continue
                 for (n, cap) in (cells(tier) if el == 'TrX' else [(2, 2), (2, 4)]):
                     js.append(ops_job(op, el, n, cap, fmask=J.K_ALL, extra_defs={'VF_NFAULTS': 2}, witness=FAULT_W, tag='-2f'))
+    tb = two_basic(tier, 'TrX', fmask=J.K_ALL, afls=((0, 1), (0, 0)))
+    js += [j for j in tb if tier != 'quick' or (j.defs['VF_CAPA'], j.defs['VF_CAPB']) in ((2, 4), (4, 4), (3, 3))]
+    from .jobs import rng_job
+    for op in ['ctor_range', 'assign_range', 'insert_range', 'append_range']:
+        js.append(rng_job(op, 'TrX', 2, 2 if op == 'ctor_range' else 4, itk=1, fmask=J.K_ALL | K_ITER_)); js.append(rng_job(op, 'int', 2, 2 if op == 'ctor_range' else 4, itk=0, fmask=K_ITER_, lenfix=2))
+    for op in ['ctor_count', 'ctor_count_val', 'ctor_gen', 'ctor_il']: js.append(rng_job(op, 'TrX', 2, 2, fmask=J.K_ALL | J.K_GEN))
     return _nn(js)
 REG['C06'] = Spec('C06', c06_jobs, tags=['C06', 'C02', 'C03', 'C04'], memsafe=True, explanation=
     'Every mutating operation with faults injected at element copy/move/assign/default/value construction and allocate (throw point(s) = solver variables; two faults for roll-back paths in the thorough tier): '
